@@ -159,13 +159,18 @@ def liveOrderCurs : List String :=
   let s2 := notifyAll (notifyAll s2 "live2" true) "live3" true
   let orders : List (List String) := [["live2", "live3", "live1"], ["live3", "live1", "live2"], ["live1", "live2", "live3"]]
   let hour : Int := 3600000000000
-  let (_, _, curs) := ((List.range 3).zip orders).foldl (fun (acc : St × Opts × List String) (io : Nat × List String) =>
+  let (s5, o5, curs) := ((List.range 3).zip orders).foldl (fun (acc : St × Opts × List String) (io : Nat × List String) =>
       let (s, o, curs) := acc
       let name := s!"new{io.1 + 1}"
       let o' := o ++ [(name, some io.2)]
       let s' := (update s "main" o' [] (fun e => lives.contains e) hour).1
       (s', o', curs ++ [((findME s' name).map (·.current)).getD "?"])) (s2, o2, [])
-  curs
+  -- an existing MultiEndpoint gets a READY endpoint put on top of its list
+  let o6 := o5 ++ [("late", some ["live3"])]
+  let s6 := (update s5 "main" o6 [] (fun e => lives.contains e)).1
+  let o7 := o5 ++ [("late", some ["live1", "live3"])]
+  let s7 := (update s6 "main" o7 [] (fun e => lives.contains e)).1
+  curs ++ [((findME s7 "late").map (·.current)).getD "?"]
 
 def handle (sess : Sess) (rep : Report) (ln : Nat) (toks : List String) (obs : String) : Sess × Report :=
   let a := args toks.tail
@@ -248,7 +253,9 @@ def handle (sess : Sess) (rep : Report) (ln : Nat) (toks : List String) (obs : S
       let mine := "cur=" ++ ",".intercalate liveOrderCurs
       -- monitor (C15, "already reflects the connectivity of the kept pools when the call returns"): a new MultiEndpoint
       -- whose endpoints' pools are all READY routes to the first endpoint of its list
-      let rep := if obs != "cur=live2,live3,live1" then fail rep ln "C15" "new_multiendpoint_routes_to_top_ready" else rep
+      let rep := if !obs.startsWith "cur=live2,live3,live1," then fail rep ln "C15" "new_multiendpoint_routes_to_top_ready" else rep
+      -- … and an existing one that gets a READY endpoint put on top of its list (no switching delay) routes there
+      let rep := if !obs.endsWith ",live1" then fail rep ln "C15" "reflects_kept_pools_when_update_returns" else rep
       if mine == obs then (sess, rep) else ({ sess with model := none }, { rep.msg s!"DIVERGE line={ln} model={mine} impl={obs}" with diverged := rep.diverged + 1 })
   | "new" | "upd" =>
     let rep := if op == "new" then { rep with episodes := rep.episodes + 1 } else rep
